@@ -31,7 +31,8 @@ HARNESSES += [H(f"c10_shape_fit_k{k:02d}", functions=[P + "DeserializeFilesOrFie
                 bound=f"{['an empty file input', 'one file', 'two files'][k]} (symbolic 1-byte filename / content)", **G) for k in range(3)]
 CT = ['(empty)', 'a', 'a CR', 'CR', 'CRLF', 'a CRLF b', '--', 'a--b', 'LF', 'CR CR']
 HARNESSES += [H(f"c10_parse_concrete_k{k:02d}", functions=[F + "parse"], clauses=["a file part with this content followed by a text field: both parts found, file content byte-exact, text field intact"],
-                bound=f"ONE concrete two-part body, file content = {CT[k]}", crate="ohkami_lib", strength="bounded", tier="quick", timeout=900, expect_covers=False) for k in range(10)]
+                bound=f"ONE concrete two-part body, file content = {CT[k]}" + (": the failing input class of KF-C10-dashes-boundary-inside-content" if k == 7 else ""), crate="ohkami_lib", strength="bounded", tier="quick", timeout=900, expect_covers=False,
+                finding="KF-C10-dashes-boundary-inside-content" if k == 7 else None) for k in range(10)]
 HARNESSES += [H("c10_parse_three_files_template", functions=[F + "parse"], clauses=["parts are kept in submission order (a text field and three files under one name)"],
                 bound="ONE concrete conforming body (no symbolic byte): a symbolic execution of the real parser, not a quantified statement",
                 crate="ohkami_lib", strength="bounded", tier="quick", timeout=900, expect_covers=False)]
